@@ -455,6 +455,8 @@ void hostile_case(uint64_t, vh::Rng &r) {
             if (L >= 0x7FFFFFFEu && L <= 0x80000001u) vh::counter("header_length_near_2pow31");
             if (L <= 2) vh::counter("header_length_0_1_2");
             if (kind != PK_HEADER) h.cls = "binary-header-on-text-framing";
+            else if ((uint64_t)L > body.size()) { h.expect_open = true; vh::counter("header_length_larger_than_available"); }   // announced more than there is: wait
+            else if (!Json::accept(body.substr(0, L))) h.expect_closed = true;                     // complete frame, text is not JSON
             break;
         }
         case 3: case 4: case 5: {
@@ -567,7 +569,7 @@ void hostile_case(uint64_t, vh::Rng &r) {
         if (first_diff(head, want_pre) >= 0)
             vh::viol("hostile/" + pk + "/valid-prefix-not-decoded", vh::fmt("class %s: %s", h.cls, diff_text(head, want_pre).c_str()));
     }
-    if (h.expect_closed) {
+    if (h.expect_closed && whole.cs.exceptions == 0) {
         if (!whole.closed)
             vh::viol("hostile/" + pk + "/malformed-not-reported",
                      vh::fmt("class %s: complete malformed frame, driver saw no negative return (%zu events, %zu bytes left): %s", h.cls, whole.ev.size(),
@@ -576,7 +578,7 @@ void hostile_case(uint64_t, vh::Rng &r) {
         if (whole.ev.size() != want_pre.size())
             vh::viol("hostile/" + pk + "/callback-for-malformed-frame", vh::fmt("class %s: %zu callbacks, %zu valid frames", h.cls, whole.ev.size(), want_pre.size()));
     }
-    if (h.expect_open) {
+    if (h.expect_open && whole.cs.exceptions == 0) {
         if (whole.closed)
             vh::viol("hostile/" + pk + "/incomplete-frame-reported-as-error",
                      vh::fmt("class %s: a strict prefix of a valid frame returned %zd: %s", h.cls, whole.err, show(h.tail, 160).c_str()));
